@@ -265,8 +265,9 @@ func ruleEndian(c *Ctx, p *core.Program, rule string) {
 		}
 	}
 	c.R.Count("binary accessors in codecs["+cfg+"]", nAcc)
-	if nWord < 12 {
-		c.R.Unk(rule, "words", cfg, "", sprintf("%d multi-word accesses found, expected at least 12 (UInt128 and UInt256 put/get)", nWord))
+	// 4 words of the 128-bit pair + 8 of the 256-bit pair, or 4 halves when the wide pair is built from the narrow one
+	if nWord < 8 {
+		c.R.Unk(rule, "words", cfg, "", sprintf("%d multi-word accesses found, expected at least 8 (UInt128 and UInt256 put/get)", nWord))
 	}
 }
 
